@@ -1,0 +1,34 @@
+//go:build verif
+
+package mongo
+
+import (
+	"github.com/bmeg/grip/gdbi"
+	"github.com/bmeg/grip/gripql"
+	"go.mongodb.org/mongo-driver/bson"
+)
+
+// VerifCompile runs the Mongo compiler on stmts for a graph called graphName
+// without a database connection and exposes what it produced: the aggregation
+// pipeline stages, the start collection, the result type and the mark types.
+// Statements the compiler hands to the core engine (jump/set/increment) yield
+// no stages (native = false).
+func VerifCompile(graphName string, stmts []*gripql.GraphStatement) (stages []bson.D, startCollection string, native bool, lastType gdbi.DataType, markTypes map[string]gdbi.DataType, err error) {
+	pipe, err := NewCompiler(&Graph{graph: graphName}).Compile(stmts, nil)
+	if err != nil {
+		return nil, "", false, gdbi.NoData, nil, err
+	}
+	for _, p := range pipe.Processors() {
+		if mp, ok := p.(*Processor); ok {
+			stages = []bson.D(mp.query)
+			startCollection = mp.startCollection
+			native = true
+		}
+	}
+	return stages, startCollection, native, pipe.DataType(), pipe.MarkTypes(), nil
+}
+
+// VerifConvertHas exposes the has-expression to filter-document translation.
+func VerifConvertHas(expr *gripql.HasExpression, not bool) bson.M {
+	return convertHasExpression(expr, not)
+}
